@@ -1,11 +1,11 @@
 \* EXPECTED VIOLATION ExitOnlyAfterCancel: mutant that gives up after a failed iteration
 CONSTANTS HA = 2 HB = 0 ForkAt = 0 Start = 0 MaxIter = 3 WithCancel = FALSE
   Peers = {"honest", "corrupt", "trunc"}
-  Verify = TRUE Retry = FALSE CheckedStore = TRUE CtxAwareSends = TRUE
+  Verify = TRUE Retry = FALSE CheckedStore = TRUE CtxAwareSends = TRUE FieldsChecked = TRUE
   ClassOf <- MCIdentity EmptyA <- MCEmptyMix EmptyB <- MCNoEmpty
 INIT Init
 NEXT Next
 VIEW view
-INVARIANTS TypeOK StoredIsChain OnlyVerified EmittedVerified PrefixOfA NoSkip NoLeak ExitOnlyAfterCancel
+INVARIANTS TypeOK StoredIsChain OnlyVerified EmittedVerified PrefixOfA NoSkip NoLeak ExitOnlyAfterCancel NoCrash
 PROPERTIES StoreExtends
 CHECK_DEADLOCK FALSE
